@@ -303,12 +303,49 @@ class Model:
         ob("K4", "child", "LOOP", (), anyw, "loop closing pipes[j].0 and pipes[j].1 for j in idx+1..count")
         return obs
 
+    def helper_summary(self, path):
+        """calls a local helper performs on EVERY path (they post-dominate its entry), with arguments expressed
+        over the helper's parameters: [(callee_last, (arg exprs...))].  One level of inlining for the
+        `extract a helper around a close` refactor."""
+        cache = self.crate.__dict__.setdefault("_plumb_helper", {})
+        if path in cache:
+            return cache[path]
+        cache[path] = []
+        h = self.crate.fn(path)
+        out = []
+        if h is not None and h.kind == "fn" and h.n <= 60 and path != self.body.path:
+            ex = h.n          # virtual exit node in pdom
+            for bb, t, c in h.calls():
+                if ex in h.pdom and bb in h.pdom.get(0, ()):
+                    args = tuple(_deep_peel(h.expand_vars(strip_sites(a))) for a in h.call_args(bb))
+                    out.append((last_seg(c), args))
+        cache[path] = out
+        return out
+
     def match_call(self, ob, bb):
         body = self.body
         t = body.term(bb)
         if t["k"] != "call":
             return False
         if last_seg(body.callee(t)) != ob["callee"]:
+            ci = body.callee_info(t)
+            if ci is None or not ci.get("local") or ob["callee"] == "LOOP":
+                return False
+            # a local helper that always performs the wanted call on one of its parameters
+            actual = [self.canon(a) for a in body.call_args(bb)]
+            for name, hargs in self.helper_summary(ci["resolved"]):
+                if name != ob["callee"] or len(hargs) < len(ob["args"]):
+                    continue
+                ok = True
+                for ha, w in zip(hargs, ob["args"]):
+                    if w == "GETPID":
+                        ok = ha[0] == "call" and last_seg(ha[1]) == "getpid"
+                    else:
+                        ok = _subst_params(ha, actual) == w
+                    if not ok:
+                        break
+                if ok:
+                    return True
             return False
         args = [self.canon(a) for a in body.call_args(bb)]
         want = ob["args"]
@@ -516,6 +553,20 @@ class Model:
                 if any(o["guard"](wd) for wd in ws):
                     failures.append((o, cls, bb))
         return failures, len(seen)
+
+
+def _subst_params(e, actual):
+    """replace ('param', i, _) of a helper by the caller's actual argument expressions"""
+    if not isinstance(e, tuple) or not e:
+        return e
+    if e[0] == "param":
+        i = e[1] - 1
+        return actual[i] if 0 <= i < len(actual) else e
+    if e[0] in ("const", "var", "tmp", "capture"):
+        return e
+    r = tuple(_subst_params(x, actual) if isinstance(x, tuple) and x and isinstance(x[0], str)
+              else (tuple(_subst_params(y, actual) for y in x) if isinstance(x, tuple) else x) for x in e)
+    return _deep_peel(r)
 
 
 def _deep_peel(e):
